@@ -304,6 +304,16 @@ func execSpecDecode(o *out, f [][]int) []int {
 		func(mm *stun.Message) error { return mm.GobDecode(data) },
 		func(mm *stun.Message) error { _, e := mm.ReadFrom(bytes.NewReader(data)); return e },
 		func(mm *stun.Message) error { return (&stun.Message{Raw: append([]byte(nil), data...)}).CloneTo(mm) },
+		func(mm *stun.Message) error { // a source that went through its own Decode first, successfully or not
+			src := new(stun.Message)
+			_ = stun.Decode(data, src)
+			return src.CloneTo(mm)
+		},
+		func(mm *stun.Message) error { // a receive buffer that fits the datagram exactly
+			mm.Raw = make([]byte, 0, len(data))
+			_, e := mm.ReadFrom(bytes.NewReader(data))
+			return e
+		},
 	} {
 		fm := &stun.Message{Raw: make([]byte, 0, len(data)+8)}
 		var ferr error
@@ -421,6 +431,23 @@ func execLookups(o *out, f [][]int) []int {
 	}
 	if fmt.Sprint(serDecoded(m)) != before {
 		o.fail("foreach-restore", "202 "+fHex(data)+" "+fNums(f[1]...))
+	}
+	// a callback that panics (and a caller that recovers, as a per-packet recover wrapper does): the message is
+	// whole again afterwards
+	if failAt > 0 {
+		pcalls := 0
+		guarded(func() {
+			_ = m.ForEach(t, func(mm *stun.Message) error {
+				pcalls++
+				if pcalls == failAt {
+					panic("callback panics")
+				}
+				return nil
+			})
+		})
+		if fmt.Sprint(serDecoded(m)) != before {
+			o.fail("foreach-restore", "202 "+fHex(data)+" "+fNums(f[1]...)+" (the callback panicked and the caller recovered)")
+		}
 	}
 	obs = append(obs, len(seen))
 	obs = append(obs, seen...)
